@@ -132,6 +132,10 @@ func implCli(h caseHead, raw []byte) map[string]any {
 		case "big":
 			p = strings.Repeat("Z", 1<<20)
 			prior = &p
+		case "same-size":
+			// as long as the report this run will write (the date has a fixed width), other content
+			p = strings.Repeat("x", len(lib))
+			prior = &p
 		case "symlink-dangling":
 			os.Symlink(filepath.Join(dir, "target.json"), of)
 		case "symlink-existing":
@@ -164,6 +168,10 @@ func implCli(h caseHead, raw []byte) map[string]any {
 	}
 	if ch.Fault == "no-args" {
 		args = args[:1]
+	}
+	if strings.HasPrefix(ch.Fault, "unknown-subcommand:") {
+		args[0] = strings.TrimPrefix(ch.Fault, "unknown-subcommand:")
+		lib, failed = "", true
 	}
 	cmd := exec.Command(bin, args...)
 	cmd.Env = append(os.Environ(), "ACV_X=expanded")
